@@ -86,6 +86,9 @@ struct CancelTwin {
     /// after a cancelled disconnect(): call poll() once before calling disconnect() again
     poll_before_reissue: bool,
     pub polled_before_reissue: bool,
+    /// after the (possibly cancelled) request: let go of the handle, connect again, poll
+    reconnect_after: bool,
+    tail: VecDeque<Step>,
 }
 
 fn with_cancel(s: &Step, at: Option<usize>) -> Step {
@@ -116,16 +119,32 @@ impl Driver for CancelTwin {
                         self.poll_before_reissue = matches!(self.request, Step::Disconnect(_)) && at % 2 == 1;
                         return Some(with_cancel(&self.request, Some(at)));
                     }
-                    self.stage = 3;
+                    self.stage = if self.reconnect_after { 5 } else { 3 };
                     self.drain_left = 60;
                     return Some(with_cancel(&self.request, None));
                 }
+                5 => {
+                    // the application lets go of the handle and connects again
+                    self.stage = 6;
+                    self.tail = vec![Step::Connect(benign_connect(v.snap.session_present)), Step::Poll { max_wait: 0, cancel_at: None }, Step::Poll { max_wait: 0, cancel_at: None }, Step::Poll { max_wait: 0, cancel_at: None }].into();
+                    if v.has_handle {
+                        return Some(Step::DropConn);
+                    }
+                }
+                6 => match self.tail.pop_front() {
+                    Some(s) => return Some(s),
+                    None => self.stage = 4,
+                },
                 1 => {
                     // after a cancelled attempt: was the request enqueued?
                     let last = v.log.ops.last().unwrap();
                     let cancelled = last.outcome == Outcome::Cancelled;
                     let enq = !last.new_retained.is_empty();
                     let is_req = matches!(self.request, Step::Publish(_) | Step::Subscribe(_) | Step::Unsubscribe(_));
+                    if self.reconnect_after {
+                        self.stage = 5;
+                        continue;
+                    }
                     if !cancelled {
                         // the cancel point was never reached: this attempt was a complete call
                         self.cancels.clear();
@@ -326,9 +345,11 @@ impl Check for C13 {
             prefix.push(Step::Advance(eff - 5_000_000u64.min(eff / 2) + 1));
             out.count("requests_issued_with_pingreq_due", 1);
         }
+        // one disconnect request in three is followed by "drop the handle, connect again, poll"
+        let reconnect_after = matches!(request, Step::Disconnect(_)) && rng.chance(1, 3);
         let polled_flag = std::cell::Cell::new(false);
         let run = |cancels: Vec<usize>| -> (RunLog, Shared, Vec<usize>) {
-            let mut d = CancelTwin { prefix: prefix.clone().into(), request: request.clone(), cancels: cancels.into(), stage: 0, drain_left: 0, reissued: false, request_ops: vec![], poll_before_reissue: false, polled_before_reissue: false };
+            let mut d = CancelTwin { prefix: prefix.clone().into(), request: request.clone(), cancels: cancels.into(), stage: 0, drain_left: 0, reissued: false, request_ops: vec![], poll_before_reissue: false, polled_before_reissue: false, reconnect_after, tail: VecDeque::new() };
             let (log, world) = run_case(&cfg, seed, &mut d, prefix.len() + 400);
             polled_flag.set(d.polled_before_reissue);
             (log, world, d.request_ops)
@@ -394,7 +415,15 @@ impl Check for C13 {
                 }
             }
             let before = out.violations.len();
-            if polled_flag.get() {
+            if reconnect_after {
+                // what the next connection carries does not depend on how far the DISCONNECT got
+                out.count("reconnects_after_a_cancelled_disconnect", 1);
+                let (la, lb) = (a_obs.packets.last(), b_obs.packets.last());
+                if a_obs.packets.len() != b_obs.packets.len() || la != lb || bw.conns.last().is_some_and(|c| c.out.error.is_some()) {
+                    let i = la.zip(lb).and_then(|(x, y)| x.iter().zip(y.iter()).position(|(p, q)| p != q)).unwrap_or(0);
+                    out.violations.push(viol("C13", "C13/disconnect/next-connection-differs", format!("disconnect cancelled at await {:?}, handle dropped, connected again: the new connection's outbound stream differs from the uncancelled run at packet {} ({} vs {} packets; uncancelled {} / cancelled {})", cancels, i, la.map(|x| x.len()).unwrap_or(0), lb.map(|x| x.len()).unwrap_or(0), la.and_then(|x| x.get(i)).map(|p| describe(p)).unwrap_or_default(), lb.and_then(|x| x.get(i)).map(|p| describe(p)).unwrap_or_default())));
+                }
+            } else if polled_flag.get() {
                 // the application polled between the cancelled disconnect() and the next one: the
                 // poll may legitimately send other owed packets (replays, acknowledgements, PINGREQ)
                 // first, so only this is demanded: every stream still decodes, nothing the reference
